@@ -136,7 +136,7 @@ func c17Exec(c *c17Case) c17Outcome {
 			case "reset":
 				return cl.Reset()
 			case "dialandsend":
-				return cl.DialAndSendWithContext(context.Background(), mk())
+				return cl.DialAndSend(mk())
 			}
 			return cl.Send(mk())
 		})
